@@ -709,65 +709,21 @@ func checkC15(c *Ctx) *report.Result {
 			}
 			count := map[lineKey]map[int64]int{}
 			var bad []string
-			nst := 0
-			for _, s0 := range ppuInvariantStates() {
-				if docMode(s0.T) != 2 || s0.T/114 > 143 {
-					continue
-				}
-				nst++
-				st := it.StateOn(c.W.Generic)
-				setI := func(path string, v int64) {
-					w, sg := ai.TypeShape(ai.LeafTypeAt(pm.PPU.T, path))
-					st.SetCell(pm.PPU, path, ai.NewConstInt(w, sg, v))
-				}
-				setI(".ticks", s0.T)
-				setI(".mode", s0.Mode)
-				setI(".ly", s0.LY)
-				st.SetCell(pm.PPU, ".firstLine", ai.NewConstBool(s0.FirstLine))
-				st.SetCell(pm.PPU, pm.Enabled, ai.NewConstBool(true))
-				var ks, oamIdx []int64
-				it.Hooks = ai.Hooks{
-					Store: func(_ *ai.State, _ ssa.Instruction, p *ai.Ptr, keys []ai.CellKey, v ai.Value, _ bool) {
-						// the per-line table: a boolean array element of the PPU (found by shape, not by name)
-						if _, isBool := v.(*ai.Bool); !isBool {
-							return
-						}
-						for _, k := range keys {
-							if i := strings.LastIndex(k.Path, "["); k.Obj == pm.PPU.ID && i >= 0 {
-								var idx int64 = -1
-								fmt.Sscanf(k.Path[i+1:], "%d", &idx)
-								if strings.Contains(k.Path, "*") {
-									idx = -1
-								}
-								ks = append(ks, idx)
-							}
-						}
-					},
-					Elem: func(_ *ai.State, _ ssa.Instruction, o *ai.Object, path string, idx *ai.Int, _ int64) {
-						if o == pm.OAM && idx != nil {
-							if cv, isc := constOf(idx); isc {
-								oamIdx = append(oamIdx, cv)
-							} else {
-								oamIdx = append(oamIdx, -1)
-							}
-						}
-					},
-				}
-				_, post := it.CallFunction(st, pm.StepFn, []ai.Value{ptrTo(pm.PPU)}, nil)
-				it.Hooks = ai.Hooks{}
-				key := lineKey{s0.T / 114, s0.FirstLine}
+			facts := pm.scanFacts()
+			for _, f := range facts {
+				key := lineKey{f.From.T / 114, f.From.FirstLine}
 				if count[key] == nil {
 					count[key] = map[int64]int{}
 				}
-				okStep := post != nil && len(ks) == len(oamIdx)
-				for i, k := range ks {
+				okStep := f.OK && len(f.Entries) == len(f.OAMIdx)
+				for i, k := range f.Entries {
 					count[key][k]++
-					if okStep && oamIdx[i] != 4*k {
+					if okStep && f.OAMIdx[i] != 4*k {
 						okStep = false
 					}
 				}
 				if !okStep && len(bad) < 4 {
-					bad = append(bad, fmt.Sprintf("tick %d (first line %v): line tests stored for entries %v from OAM bytes %v (documented: byte 4k for entry k)", s0.T, s0.FirstLine, ks, oamIdx))
+					bad = append(bad, fmt.Sprintf("tick %d (first line %v): line tests stored for entries %v from OAM bytes %v (documented: byte 4k for entry k)", f.From.T, f.From.FirstLine, f.Entries, f.OAMIdx))
 				}
 			}
 			lines := 0
@@ -784,12 +740,14 @@ func checkC15(c *Ctx) *report.Result {
 				}
 			}
 			sort.Strings(bad)
-			r.Ob("V-scan", len(bad) == 0 && lines == 145, "every OAM entry line-tested once per line", firstPos(c, pm.StepFn), fmt.Sprintf("%d lines (144 + the first line after switch-on) over %d mode-2 ticks; %s", lines, nst, strings.Join(bad, "; ")))
-			r.Instances["V-scan"] += nst
+			r.Ob("V-scan", len(bad) == 0 && lines == 145, "every OAM entry line-tested once per line", firstPos(c, pm.StepFn), fmt.Sprintf("%d lines (144 + the first line after switch-on) over %d mode-2 ticks; %s", lines, len(facts), strings.Join(bad, "; ")))
+			r.Instances["V-scan"] += len(facts)
 		}
 	}
 	r.Rule("V-sched", "lines are drawn on the documented schedule (rules L-inv / L-switch of C13 re-stated): every visible line goes through its OAM scan and pixel transfer ticks")
 	adopt(r, c.sibling("C13"), map[string]string{"L-inv": "V-sched", "L-switch": "V-sched", "L-own": "V-sched"}, "a line whose scan or transfer ticks are skipped is drawn from stale data")
+	r.Rule("V-oam", "the PPU sees OAM: a transfer always terminates after 162 steps whenever it was (re)started, and is stepped every machine cycle (D-start, D-table, D-idle, D-step of C16 re-stated) - while one is flagged as running the PPU reads FF for every object byte")
+	adopt(r, c.sibling("C16"), map[string]string{"D-start": "V-oam", "D-table": "V-oam", "D-idle": "V-oam", "D-step": "V-oam"}, "a transfer that never finishes leaves the PPU reading FF from OAM: every object disappears from every later frame")
 	return r
 }
 
